@@ -37,6 +37,10 @@ func ParseRequest(r io.Reader) ([]*command.Statement, error) {
 	if err != nil {
 		return nil, ErrInvalidJSON
 	}
+	if t == nil {
+		// A JSON null body is an absent list of statements.
+		return nil, ErrNoStatements
+	}
 	if t != json.Delim('[') {
 		return nil, ErrInvalidRequest
 	}
